@@ -169,7 +169,13 @@ func (fm *Server) Init(ctx context.Context, req *pb.InitRequest) (*pb.Response, 
 	fm.lock.Lock()
 	fm.status = FuseManagerWaitInit
 	defer func() {
-		fm.status = FuseManagerReady
+		// Become ready only if there is a filesystem to serve requests with: when the
+		// very first initialization fails no filesystem exists and requests must keep
+		// being refused; when a re-initialization fails the filesystem created by the
+		// previous one keeps serving.
+		if fm.curFs != nil {
+			fm.status = FuseManagerReady
+		}
 		fm.lock.Unlock()
 	}()
 
